@@ -174,7 +174,7 @@ claim("C07",
       "(a) SX per handler: every suspension of step / wait_for_condition / wait / invoke / callback.result over every reachable record is preceded by a SYNCHRONOUS "
       "record that lets the backend wake the execution (or such a record pre-exists) and a timed suspension carries the recorded delay; (b) executor world: the real "
       "executor with branches that succeed / fail / park / park until t / resume after a park / never finish, solver-chosen completion order and timer activity: "
-      "SuspendExecution only when no branch is running or waiting to start, earliest parked timestamp, one synchronous refresh checkpoint per resubmission, no "
+      "SuspendExecution only when no branch is running or waiting to start, earliest parked timestamp, a synchronous state refresh before every resubmission, no "
       "deadlock unless a branch itself never finishes, no livelock within 40 actions; one solver-chosen submit() whose task has finished before add_done_callback "
       "(callback on the submitting/timer thread, non-reentrant TimerScheduler lock modelled); the resubmission's refresh checkpoint failing on the timer thread; "
       "(c) composed executions reach SUCCEEDED/FAILED within 6 invocations under every crash point (lemmas shared with C02); (d) a caller racing or arriving during "
